@@ -271,6 +271,10 @@ func cmdCheck(args []string) int {
 		stats.Unsat += w.solver.Stats.Unsat
 		stats.Unknown += w.solver.Stats.Unknown
 		stats.Errors += w.solver.Stats.Errors
+		stats.CrossChecked += w.solver.Stats.CrossChecked
+		stats.CrossAgree += w.solver.Stats.CrossAgree
+		stats.CrossDisagree += w.solver.Stats.CrossDisagree
+		stats.CrossInconclusive += w.solver.Stats.CrossInconclusive
 		stats.Time += w.solver.Stats.Time
 	}
 
